@@ -256,3 +256,62 @@ Lemma once_witness :
   let s := run false lazy_deps (init lazy_reqs) [0; 1] in
   valid false lazy_deps (init lazy_reqs) [0; 1] = true /\ bad s = false /\ once_ok (log s) = false.
 Proof. vm_compute. repeat split; reflexivity. Qed.
+
+(* ---------------------------------------------------------------- bounded-exhaustive families of request sets
+   Every multiset of at most 4 requests, each one of  deploy | undeploy | undeploy;deploy | deploy;undeploy,
+   over ONE eager deployment whose connector deploy/undeploy suspend once: return_after and once on every
+   interleaving (70 request sets; the kernel explores each exhaustively). *)
+Definition rtypes := [[ODeploy 0]; [OUndeploy 0]; [OUndeploy 0; ODeploy 0]; [ODeploy 0; OUndeploy 0]].
+Fixpoint msets (n : nat) (lo : nat) : list (list nat) :=
+  match n with
+  | 0 => [[]]
+  | S n' => [] :: flat_map (fun i => map (cons i) (msets n' i)) (seq lo (4 - lo))
+  end.
+Definition one_fam : list (list (list op)) := map (map (fun i => nth i rtypes [])) (msets 4 0).
+Definition one_deps := [plain 1 1].
+Definition one_P reqs (s : st) := ra_ok reqs (log s) && once_ok (log s).
+
+Lemma one_fam_explored :
+  forallb (fun reqs => explore false one_deps (one_P reqs) 60 (init reqs)) one_fam = true.
+Proof. vm_compute. reflexivity. Qed.
+
+Lemma one_fam_all_schedules : forall reqs sched,
+  In reqs one_fam -> valid false one_deps (init reqs) sched = true ->
+  ra_ok reqs (log (run false one_deps (init reqs) sched)) = true /\
+  once_ok (log (run false one_deps (init reqs) sched)) = true.
+Proof.
+  intros reqs sched Hin Hv. pose proof one_fam_explored as H. rewrite forallb_forall in H.
+  destruct (explore_sound false one_deps (one_P reqs) sched 60 _ (H reqs Hin) Hv) as [HP _].
+  apply andb_prop in HP. exact HP.
+Qed.
+
+(* Sequential teardown of an eager wraps chain d3 -> d2 -> d1 -> d0 (undeploy suspends once): ONE request that
+   first deploys any sequence of at most 2 deployments and then runs any sequence of at most 2 teardown
+   operations (undeploy of any deployment, or undeploy_all with its concurrent child tasks): wrap_order, once
+   and return_after on every interleaving (651 request sets). *)
+Definition ch_deps := [plain 0 1; wrap 0 0 1; wrap 1 0 1; wrap 2 0 1].
+Fixpoint seqs {A} (alpha : list A) (n : nat) : list (list A) :=
+  match n with
+  | 0 => [[]]
+  | S n' => [] :: flat_map (fun a => map (cons a) (seqs alpha n')) alpha
+  end.
+Definition ch_fam : list (list (list op)) :=
+  flat_map (fun ds => map (fun td => [ds ++ td])
+                          (seqs [OUndeploy 0; OUndeploy 1; OUndeploy 2; OUndeploy 3; OAll] 2))
+           (seqs [ODeploy 0; ODeploy 1; ODeploy 2; ODeploy 3] 2).
+Definition ch_P reqs (s : st) := wo_ok ch_deps (log s) && once_ok (log s) && ra_ok reqs (log s).
+
+Lemma ch_fam_explored :
+  forallb (fun reqs => explore false ch_deps (ch_P reqs) 80 (init reqs)) ch_fam = true.
+Proof. vm_compute. reflexivity. Qed.
+
+Lemma ch_fam_all_schedules : forall reqs sched,
+  In reqs ch_fam -> valid false ch_deps (init reqs) sched = true ->
+  wo_ok ch_deps (log (run false ch_deps (init reqs) sched)) = true /\
+  once_ok (log (run false ch_deps (init reqs) sched)) = true /\
+  ra_ok reqs (log (run false ch_deps (init reqs) sched)) = true.
+Proof.
+  intros reqs sched Hin Hv. pose proof ch_fam_explored as H. rewrite forallb_forall in H.
+  destruct (explore_sound false ch_deps (ch_P reqs) sched 80 _ (H reqs Hin) Hv) as [HP _].
+  apply andb_prop in HP. destruct HP as [HP H3]. apply andb_prop in HP. destruct HP as [H1 H2]. auto.
+Qed.
